@@ -61,6 +61,10 @@ pub struct Case {
     pub max_size: u64,
     pub ops: Vec<Op>,
     pub mode: Mode,
+    /// further `WalConfig` knobs: bit 0 = checksums off (`enable_checksums`),
+    /// bit 1 = no verification on replay (`verify_on_replay`)
+    #[serde(default)]
+    pub wal_flags: u8,
 }
 
 pub struct C02;
@@ -75,6 +79,12 @@ fn wal_config(case: &Case) -> WalConfig {
         _ => SyncMode::Manual,
     };
     c.max_size_bytes = case.max_size;
+    if case.wal_flags & 1 != 0 {
+        c.enable_checksums = false;
+    }
+    if case.wal_flags & 2 != 0 {
+        c.verify_on_replay = false;
+    }
     c
 }
 
@@ -695,12 +705,16 @@ impl Scenario for C02 {
             u += 1;
             ops.insert(at, Op::Put { k: *rng.pick(&[0u8, 1, 4, 8]), v: *rng.pick(&[201u8, 202, 202]), u });
         }
-        Case { sync, batch_n: rng.range(1, 4) as usize, max_size, ops, mode }
+        let wal_flags = *rng.pick(&[0u8, 0, 0, 0, 1, 2, 3]);
+        Case { sync, batch_n: rng.range(1, 4) as usize, max_size, ops, mode, wal_flags }
     }
 
     fn run(&self, case: &Case, ctx: &Arc<RunCtx>) -> RunOut {
         let mut out = RunOut::default();
-        ctx.fp(&format!("sync{}:{:?}", case.sync, case.mode == Mode::Enumerate));
+        ctx.fp(&format!("sync{}:{:?}:{}", case.sync, case.mode == Mode::Enumerate, case.wal_flags));
+        if case.wal_flags & 1 != 0 {
+            ctx.probe("log_without_checksums");
+        }
         match &case.mode {
             Mode::Chain(specs) => {
                 let mut t = Trial::new(ctx, case, 0);
@@ -807,6 +821,11 @@ impl Scenario for C02 {
         if case.sync != 0 {
             let mut c = case.clone();
             c.sync = 0;
+            v.push(c);
+        }
+        if case.wal_flags != 0 {
+            let mut c = case.clone();
+            c.wal_flags = 0;
             v.push(c);
         }
         // simpler values
